@@ -162,6 +162,16 @@ class OwnMachine(HM):
     def reset(self, src):
         self.do("reset", {"src": src})
 
+    @rule(src=st.sampled_from(["A", "B"]), w=st.integers(2, 9))
+    def reset_then_average(self, src, w):
+        self.do("reset", {"src": src})
+        self.do("running_average", {"w": w})
+
+    @rule(src=st.sampled_from(["A", "B"]), c=st.floats(-3, 3, allow_nan=False))
+    def reset_then_add(self, src, c):
+        self.do("reset", {"src": src})
+        self.do("add_constant", {"c": c})
+
     @rule(src=st.sampled_from(["A", "B"]), i=st.integers(0, 200), v=st.integers(-50, 50))
     def caller_write(self, src, i, v):
         self.do("caller_write", {"src": src, "i": i, "v": v})
@@ -210,7 +220,7 @@ machine_clause(CLAUSES, "ownership", OwnMachine, Own, quick=250, thorough=400, q
                     "non-trivial = at least one mutator applied after a reset_values",
                oracle="invariants after every step: caller containers equal their snapshots (dtype, shape, bytes); a caller write does not change "
                       "Signal.values; values is a 1-d numeric ndarray with len == npts; time == dt*arange(npts) exactly",
-               min_nontrivial=0.3)
+               min_nontrivial=0.2)
 
 
 @st.composite
@@ -401,22 +411,25 @@ def _pure_cases(draw):
     kinds = ["noise", "sines", "quake", "walk", "pulse", "levels", "dyadic", "vals"]
     a = draw(gen.record_specs(min_n=n, max_n=n, small_max=n, kinds=kinds, amp_lo=-2, amp_hi=2, allow_zero_runs=False))
     b = draw(gen.record_specs(min_n=n, max_n=n, small_max=n, kinds=["noise", "sines", "walk"], amp_lo=-2, amp_hi=2, allow_zero_runs=False))
-    return {"a": a, "b": b, "how": draw(st.sampled_from(["float", "float", "int", "list"])),
-            "dt": draw(st.sampled_from([0.005, 0.01, 0.02, 0.05])), "seed": draw(st.integers(0, 10 ** 6))}
+    return {"a": a, "b": b, "dt": draw(st.sampled_from([0.005, 0.01, 0.02, 0.05])), "seed": draw(st.integers(0, 10 ** 6))}
 
 
-@clause(CLAUSES, "pure-functions", _pure_cases(), quick=70, thorough=150,
-        rule="each case calls EVERY registry entry (100 call forms covering sdof, displacements, im, fns.average/generic/frequency/"
+@clause(CLAUSES, "pure-functions", _pure_cases(), quick=40, thorough=100,
+        rule="each case calls, for each of the three container variants, EVERY registry entry (100 call forms covering sdof, displacements, im, fns.average/generic/frequency/"
              "peaks_and_crossings/time_shift/time_step, stockwell, surface, multiple, loader.save) twice on records of n 24..300 given as "
              "float64 / int64 ndarray or list; non-trivial = non-constant record",
         oracle="snapshot (dtype, shape, bytes; signal values/dt/npts) of every argument before vs after each call; the two results equal (NaN-aware, exact)",
-        require={"how=int": 0.1, "how=list": 0.1})
+        require={"how=int": 0.9, "how=list": 0.9})
 def pure_functions(case, ctx):
+    for how in (["float", "int", "list"] if "how" not in case else [case["how"]]):
+        _pure_one(case, ctx, how)
+
+
+def _pure_one(case, ctx, how):
     af = np.array(gen.build(case["a"]), dtype=float)
     bf = np.array(gen.build(case["b"]), dtype=float)
     if len(bf) != len(af):
         bf = np.resize(bf, len(af))
-    how = case["how"]
     dt = case["dt"]
     n = len(af)
     rs = np.random.RandomState(case["seed"])
@@ -472,7 +485,7 @@ def pure_functions(case, ctx):
         if k in env_snap and _snap(v) != env_snap[k]:
             ctx.fail("some analysis function modified the shared input %r" % k)
     ctx.notes["rejected"] = rejected
-    if how == "float":
+    if how == "float" and len(np.unique(af)) > 4:  # (constant / two-level records are legitimately rejected by many functions)
         if rejected > 4:
             raise core.HarnessError("%d registry entries raised on a float64 record (builders out of date?)" % rejected)
     try:
